@@ -8,6 +8,8 @@
 (* the furthest line explained per trace is kept in a TLC register (one worker) and reported at the end.          *)
 EXTENDS Explorer, Json
 
+CONSTANT Canon   \* TRUE: canonical schedule of the silent steps (see TraceNext)
+
 VARIABLE l
 
 Trace == ndJsonDeserialize("trace.ndjson")
@@ -89,10 +91,19 @@ TraceInit ==
     /\ enq = {} /\ proc = <<>>
     /\ \E i \in Starts : l = i + 1 /\ TLCSet(Trace[i].t, i + 1)
 
+\* With Canon = TRUE a critical section runs to its end before anything else happens (what the lock holder does
+\* between acquire and release is invisible to every other process of the intended design, and the calls / returns
+\* of the others commute with it), and the bookkeeping step after an append is taken at once.  Every explanation
+\* found this way is one of the unrestricted specification; traces that stay unexplained are validated again with
+\* Canon = FALSE before anything is reported.
 TraceNext ==
     /\ ~AtEnd
-    /\ \/ Logged(Trace[l]) /\ l' = l + 1
-       \/ Silent /\ UNCHANGED l
+    /\ IF Canon /\ lock # Nil
+       THEN Internal(lock) /\ UNCHANGED l
+       ELSE IF Canon /\ \E p \in DOMAIN proc : proc[p].pc = "ap5"
+       THEN (\E p \in DOMAIN proc : Ap_Done(p)) /\ UNCHANGED l
+       ELSE \/ Logged(Trace[l]) /\ l' = l + 1
+            \/ Silent /\ UNCHANGED l
 
 TraceSpec == TraceInit /\ [][TraceNext]_tvars
 
